@@ -112,6 +112,16 @@ func (m *Metrics) Close() {
 	m.Latencies.P90 = m.Latencies.Quantile(0.90)
 	m.Latencies.P95 = m.Latencies.Quantile(0.95)
 	m.Latencies.P99 = m.Latencies.Quantile(0.99)
+
+	// The estimator works in float64, which can't represent every latency
+	// beyond 2^53ns exactly: keep the estimates within the observed range.
+	for _, p := range []*time.Duration{&m.Latencies.P50, &m.Latencies.P90, &m.Latencies.P95, &m.Latencies.P99} {
+		if *p < m.Latencies.Min {
+			*p = m.Latencies.Min
+		} else if *p > m.Latencies.Max {
+			*p = m.Latencies.Max
+		}
+	}
 }
 
 func (m *Metrics) init() {
